@@ -12,6 +12,7 @@ impl ModuleLoader {
             .unwrap_or_else(|| ".".into());
         let base_root = base_dir.canonicalize().unwrap_or_else(|_| base_dir.clone());
         Self {
+            entry_dir: base_dir.clone(),
             base_dir,
             base_root,
             loaded_modules: std::collections::HashMap::new(),
@@ -35,6 +36,7 @@ impl ModuleLoader {
             .unwrap_or_else(|| ".".into());
         let base_root = base_dir.canonicalize().unwrap_or_else(|_| base_dir.clone());
         Self {
+            entry_dir: base_dir.clone(),
             base_dir,
             base_root,
             loaded_modules: std::collections::HashMap::new(),
